@@ -132,6 +132,11 @@ def make_case(rng, k, idx):
     p = rng.choice(PAYLOADS)
     if rng.random() < 0.3:
         p = p + rng.choice(PAYLOADS)
+    if rng.random() < 0.35:
+        # the payload inside a larger, multi-line / whitespace-laden / non-ASCII text (numbat escapes: a real newline or
+        # tab at run time)
+        p = rng.choice(["first line\\n", "\\n", "\\t", "a\\r\\nb ", "  ", "ä€ ", "x\\ny\\n", ""]) + p + \
+            rng.choice(["", "\\nlast line", "\\n", " \\t", " end"])
     q = p.replace("\\\"", "").replace("{", "").replace("}", "")
     if rng.random() < 0.5:
         tmpl, stage = rng.choice(OK_TEMPLATES), None
